@@ -26,6 +26,8 @@ def cases(res):
     add(9, {}, "motion", 96, 64, 10)
     add(9, {"enable_hbd_mode_decision": 0}, "noise", 64, 64, 10)
     add(12, {"tile_columns": 1, "tile_rows": 1}, "motion", 256, 128)
+    add(8, {"tile_columns": 2}, "motion", 320, 128)                      # 3 tile columns (tile count not a power of two)
+    add(8, {"tile_columns": 2, "tile_rows": 1}, "fastpan", 320, 128)     # 6 tiles
     add(12, {"rate_control_mode": 1, "target_bit_rate": 120000}, "motion", 128, 128)
     add(12, {"rate_control_mode": 2, "target_bit_rate": 120000, "logical_processors": 1}, "edges", 128, 128)
     add(10, {"film_grain_denoise_strength": 10}, "noise", 128, 64)
